@@ -7,6 +7,9 @@ S=/tmp/corpsweep
 export CARGO_NET_OFFLINE=true
 rm -rf $S; mkdir -p $S
 rsync -a --exclude target --exclude replays --exclude .git /verif/ $S/verif/
+# recorded findings are plans over the *committed* corpus (interface / property indices): they mean something else
+# under another corpus, so they are not replayed here
+echo '[]' > $S/verif/known_findings.json
 for seed in "$@"; do
     python3 $S/verif/tools/gen_corpus.py --seed $seed --ifaces 16 > $S/verif/sim/src/corpus_gen.rs
     if ! (cd $S/verif/sim && cargo build --release --offline > $S/build.log 2>&1); then
